@@ -407,3 +407,7 @@ func ImpureCalls() int { return 0 }
 // body, transport failure).
 func OnRoundTrip(f func(sessionID string, body []byte) (int, []byte, bool)) {}
 func Dump(name string, b []byte) {}
+
+// Observers of the field/curve models (solver only).
+func LastEll2Input() []byte          { return nil }
+func LastPointXY() ([]byte, []byte) { return nil, nil }
